@@ -121,9 +121,10 @@ def run(ctx, out):
         driver = rng.choice(["parfile", "parblock"])
         os.mkdir(os.path.join(d, "dst"))
         # how the source is spelled on the command line must not matter
-        spelling = rng.choice(["abs", "rel", "dotrel", "dotdot", "slash", "abs"]) if not selfnamed else rng.choice(["rel", "rel", "slash", "dotrel"])
+        spelling = rng.choice(["abs", "rel", "dotrel", "dotdot", "slash", "abs", "dotend", "dslash", "absdotend"]) if not selfnamed else rng.choice(["rel", "rel", "slash", "dotrel", "dotend"])
         os.mkdir(os.path.join(d, "sub"))
-        sarg = {"abs": src, "rel": "src", "dotrel": "./src", "dotdot": "sub/../src", "slash": "src/"}[spelling]
+        sarg = {"abs": src, "rel": "src", "dotrel": "./src", "dotdot": "sub/../src", "slash": "src/", "dotend": "src/.", "dslash": "src//",
+                "absdotend": src + "/."}[spelling]
         out.count("spelling_" + spelling)
         argv = [ctx.bins["xcp"], "-r", "--driver", driver, "-w", "2"] + (["--gitignore"] if use_flag else []) + [sarg, os.path.join(d, "dst")]
         r = xcp.run_plain(argv, d)
